@@ -25,6 +25,9 @@ pub struct Case {
     /// permutation keys for the parts and the merge history: (receiver, donor) index fractions
     pub order: Vec<u16>,
     pub merges: Vec<(u16, u16)>,
+    /// a segment of the stream (fractions of the message count) that occurs a second time at the end
+    #[serde(default)]
+    pub repeat: Option<(u16, u16)>,
 }
 
 type Counters = [usize; 8]; // non_log, fatal, error, warning, info, debug, verbose, invalid
@@ -116,7 +119,12 @@ fn stats_of(msgs: &[RMsg], storage: bool) -> Result<StatisticInfo, Violation> {
 }
 
 pub fn check(c: &Case) -> CheckResult {
-    let msgs: Vec<RMsg> = c.msgs.iter().filter(|m| m.storage.is_some() == c.storage).cloned().collect();
+    let mut msgs: Vec<RMsg> = c.msgs.iter().filter(|m| m.storage.is_some() == c.storage).cloned().collect();
+    if let Some((a, b)) = c.repeat {
+        let (i, j) = ((a as usize * (msgs.len() + 1)) >> 16, (b as usize * (msgs.len() + 1)) >> 16);
+        let seg: Vec<RMsg> = msgs[i.min(j)..i.max(j)].to_vec();
+        msgs.extend(seg);
+    }
     let bytes = bytes_of(&msgs);
     // (a) the collector sees every message exactly once, in order, with its decoded headers
     let rec = guard(|| {
@@ -184,7 +192,7 @@ pub fn check(c: &Case) -> CheckResult {
     cuts.push(0);
     cuts.push(msgs.len());
     cuts.sort();
-    cuts.dedup();
+    // (equal cut points stay: they give empty parts, whose statistics must merge like zero)
     let mut parts: Vec<StatisticInfo> = vec![];
     for w in cuts.windows(2) {
         parts.push(stats_of(&msgs[w[0]..w[1]], c.storage)?);
@@ -255,7 +263,8 @@ pub fn strategy() -> impl Strategy<Value = Case> {
     any::<bool>().prop_flat_map(|storage| {
         let st = if storage { g::StorageMode::Always } else { g::StorageMode::Never };
         let m = g::message(g::MsgParams { storage: st, large: false, pool_ids: true, ..Default::default() }).prop_map(more_logs);
-        (vec(m, 0..40), vec(any::<u16>(), 0..5), vec(any::<u16>(), 0..6), vec(any::<(u16, u16)>(), 6)).prop_map(move |(msgs, splits, order, merges)| Case { storage, msgs, splits, order, merges })
+        (vec(m, 0..40), vec(prop_oneof![4 => any::<u16>(), 1 => Just(0u16), 1 => Just(u16::MAX)], 0..5), vec(any::<u16>(), 0..6), vec(any::<(u16, u16)>(), 8), prop::option::weighted(0.2, any::<(u16, u16)>()))
+            .prop_map(move |(msgs, splits, order, merges, repeat)| Case { storage, msgs, splits, order, merges, repeat })
     })
 }
 
